@@ -206,13 +206,158 @@ def gen_cli_tasks(chk, tier):
 
 def judge_cli(task, res):
     out = []
-    for argv, rec in zip(task['argvs'], res.get('recs', [])):
+    for k, (argv, rec) in enumerate(zip(task['argvs'], res.get('recs', []))):
         if 'err' in rec:
-            out.append(('cli-raises:%s:%s@%s' % (task['app'], rec['err'], (rec.get('where') or ['?'])[-1]), {'argv': argv, 'msg': rec.get('msg')}))
+            out.append(('cli-raises:%s:%s@%s' % (task['app'], rec['err'], (rec.get('where') or ['?'])[-1]), {'argv': argv, 'k': k, 'msg': rec.get('msg'), 'printed_before': rec.get('partial')}))
         elif rec.get('rc') not in (0, None):
-            out.append(('cli-exit-status:%s' % task['app'], {'argv': argv, 'rc': rec.get('rc'), 'out': rec.get('out', '')[-200:]}))
+            out.append(('cli-exit-status:%s' % task['app'], {'argv': argv, 'k': k, 'rc': rec.get('rc'), 'out': rec.get('out', '')[-200:]}))
         elif '--no-color' in argv and ESC in rec.get('out', '') and not any(ESC in t for d in task['nbs'] for t in texts_of(d)):
-            out.append(('nocolor-ansi:cli-' + task['app'], {'argv': argv}))
+            out.append(('nocolor-ansi:cli-' + task['app'], {'argv': argv, 'k': k}))
+    if task['app'] == 'nbdiff-git': out += judge_cli_git(task, res)
+    return out
+
+# ------------------------------------------------------------------ nbdiff in git-revision mode (several notebooks per invocation)
+# A scratch repository with a short history over a handful of notebooks; each commit (and the uncommitted working tree) edits
+# some of them IN PLACE (same cells, same outputs), adds / deletes a notebook or touches a non-notebook file.  nbdiff is then
+# run between two revisions (HEAD~k, tags, abbreviated object names, the working tree), optionally restricted to paths,
+# under ignore flags x colour x renderer.  One invocation renders every changed notebook in turn.
+GIT_NAMES = ['alpha.ipynb', 'sub/beta.ipynb', 'two words.ipynb', 'deep/er/delta.ipynb', 'gämma.ipynb', 'epsilon.ipynb']
+GIT_FLAGSETS = [[], ['-s'], ['-o'], ['-m'], ['-d'], ['-s', '-o'], ['-s', '-m', '-d'], ['-S'], ['-O'], ['-M', '-D'], ['-O', '-M'], ['-D', '-I', '-A'], ['-a', '-i']]
+GIT_EXTRAS = [([], (True, True)), (['--no-color'], (True, True)), (['--color-words'], (True, True)), (['--no-git'], (True, True)),
+              (['--no-color', '--no-git', '--no-use-diff'], (True, True)), (['--no-color'], (True, False))]
+GIT_EDIT_KINDS = ['sources', 'metadata', 'cell_metadata', 'outputs', 'details']
+FLAG_CAT = {'s': 'sources', 'o': 'outputs', 'a': 'attachments', 'm': 'metadata', 'i': 'id', 'd': 'details'}
+
+def git_base_notebook(r, tag):
+    """a generated notebook whose first cell has a three-line source and whose last cell is a code cell with a stream output"""
+    nb = G.gen_notebook(r, ncells=r.choice([1, 2, 3]))
+    nb['metadata']['c16tag'] = tag
+    nb['cells'][0]['source'] = 'first line of %s\nsecond line\nthird line hé\n' % tag
+    last = {'cell_type': 'code', 'execution_count': 1, 'metadata': {}, 'source': 'print("%s")' % tag,
+            'outputs': [{'output_type': 'stream', 'name': 'stdout', 'text': '%s\nout\n' % tag}]}
+    if nb['nbformat_minor'] >= 5: last['id'] = G.cell_id(r)
+    nb['cells'].append(last)
+    return nb
+
+def git_edit(r, nb, kinds, stamp):
+    """in-place edits of the given kinds; cell and output counts never change"""
+    b = copy.deepcopy(nb)
+    for k in kinds:
+        if k == 'sources':
+            i = r.choice([0, 0, len(b['cells']) - 1]); c = b['cells'][i]
+            c['source'] = c['source'] + ('' if c['source'].endswith('\n') or not c['source'] else '\n') + 'added in %s' % stamp + r.choice(['', '\n'])
+        elif k == 'metadata': b['metadata']['c16tag'] = stamp
+        elif k == 'cell_metadata': r.choice(b['cells'])['metadata']['c16'] = stamp
+        elif k == 'outputs': b['cells'][-1]['outputs'][0]['text'] += 'more in %s\n' % stamp
+        elif k == 'details': b['cells'][-1]['execution_count'] += 1
+    return b
+
+def gen_git_tasks(chk, tier):
+    r = chk.rng
+    tasks = []
+    for i in range({'quick': 6, 'thorough': 30}[tier]):
+        names = r.sample(GIT_NAMES, r.choice([2, 3, 3, 4]))
+        tree = {nm: git_base_notebook(r, 'nb%d' % j) for j, nm in enumerate(names)}
+        tree['notes.txt'] = 'plain text\n'
+        commits = [tree]
+        ncommits = r.choice([2, 2, 3])
+        for k in range(1, ncommits + 1):          # the last "commit" becomes the working tree when wt is chosen
+            prev = commits[-1]; cur = dict(prev)
+            present = [nm for nm in names if nm in prev]
+            # at least two notebooks change in the first step of every history; later steps vary from none to all
+            nchg = min(len(present), r.choice([2, 2, 3]) if k == 1 else r.choice([0, 1, 2, 3]))
+            for nm in r.sample(present, nchg):
+                kinds = r.sample(GIT_EDIT_KINDS, r.choice([1, 1, 2, 3])) if (i + k) % 3 else ['sources'] + r.sample(GIT_EDIT_KINDS[1:], r.choice([0, 1]))
+                cur[nm] = git_edit(r, prev[nm], kinds, 's%d' % k)
+            c = r.random()
+            if c < 0.2:
+                gone = [nm for nm in present if cur[nm] is prev[nm]]
+                if gone: del cur[r.choice(gone)]
+            elif c < 0.4:
+                free = [nm for nm in GIT_NAMES if nm not in cur]
+                if free: cur[r.choice(free)] = git_base_notebook(r, 'new%d' % k)
+            if r.random() < 0.5: cur['notes.txt'] = prev['notes.txt'] + 'step %d\n' % k
+            commits.append(cur)
+        wt = None
+        if r.random() < 0.5: wt = commits.pop()
+        last = len(commits) - 1
+        # revision pairs: (refs, from, to) -- to = 'wt' is the working tree (equal to the last commit when nothing is uncommitted)
+        revs = [(['HEAD~1', 'HEAD'], last - 1, last), (['t0', 'HEAD'], 0, last), (['t0', 't1'], 0, 1), (['SHA:0', 'SHA:%d' % last], 0, last),
+                (['t%d' % last, 't0'], last, 0), (['HEAD~1'], last - 1, 'wt'), ([], last, 'wt'), (['t0', 'main'], 0, last)]
+        allnames = sorted({nm for c in commits + ([wt] if wt else []) for nm in c if nm.endswith('.ipynb')})
+        plans = []; argvs = []; tools = []
+        j = 0
+        for fl in GIT_FLAGSETS:
+            for q in range(3):
+                refs, frm, to = revs[(j + i) % len(revs)] if q else revs[2]      # t0..t1: at least two changed notebooks
+                extra, tl = GIT_EXTRAS[(j + 2 * i) % len(GIT_EXTRAS)]
+                paths = []
+                if refs and j % 4 == 3:
+                    paths = r.sample(allnames, r.choice([1, 2, 2])) if r.random() < 0.8 else [r.choice(['sub', 'deep', '.'])]
+                j += 1
+                plans.append({'flags': fl, 'refs': refs, 'from': frm, 'to': to, 'paths': paths})
+                argvs.append(fl + extra + refs + paths); tools.append(list(tl))
+        tasks.append({'op': 'cli', 'app': 'nbdiff-git', 'nbs': [], 'commits': commits, 'worktree': wt, 'plans': plans, 'argvs': argvs, 'tools': tools, 'src': 'cli-git'})
+    return tasks
+
+def shown_from_flags(flags):
+    """the categories an nbdiff command line asks to see: lower-case flags = only these, upper-case flags = all but these"""
+    only = {FLAG_CAT[f[1]] for f in flags if f[1].islower()}
+    drop = {FLAG_CAT[f[1].lower()] for f in flags if f[1].isupper()}
+    return only if only else set(G.CATS) - drop
+
+def inplace_changes(a, b, path=()):
+    """locations at which two documents of the same shape differ (dict keys unioned, lists index-wise when equally long)"""
+    if isinstance(a, dict) and isinstance(b, dict):
+        out = []
+        for k in sorted(set(a) | set(b)):
+            if k not in a or k not in b: out.append(path + (k,))
+            else: out += inplace_changes(a[k], b[k], path + (k,))
+        return out
+    if isinstance(a, list) and isinstance(b, list) and len(a) == len(b):
+        return [l for i, (x, y) in enumerate(zip(a, b)) for l in inplace_changes(x, y, path + (i,))]
+    return [] if a == b and type(a) == type(b) else [path]
+
+def under(path, filters):
+    return not filters or any(f == '.' or path == f or path.startswith(f.rstrip('/') + '/') for f in filters)
+
+def judge_cli_git(task, res):
+    """per invocation: every notebook changed between the two revisions in a shown category gets a section that mentions the
+    changed cell / top-level key; an unchanged notebook, a notebook outside the path filter and a non-notebook file get none.
+    (A notebook changed in ignored categories only is not judged: nbdime may still align its cells differently.)"""
+    out = []
+    for k, (plan, argv, rec) in enumerate(zip(task['plans'], task['argvs'], res.get('recs', []))):
+        if 'err' in rec or rec.get('rc') not in (0, None): continue          # judge_cli reports these
+        snap = lambda x: (task['worktree'] if task.get('worktree') is not None else task['commits'][-1]) if x == 'wt' else task['commits'][x]
+        A, B = snap(plan['from']), snap(plan['to'])
+        shown = shown_from_flags(plan['flags'])
+        sections = []
+        for line in strip_ansi(rec.get('out', '')).split('\n'):
+            if line.startswith('nbdiff '): sections.append([line[7:], []])
+            elif sections: sections[-1][1].append(line)
+        for nm in sorted(set(A) | set(B)):
+            mine = [s for s in sections if nm in s[0]]
+            a, b = A.get(nm), B.get(nm)
+            if plan['to'] == 'wt' and nm not in task['commits'][-1] and nm in B: continue      # untracked file: not git's business, not judged
+            if not nm.endswith('.ipynb') or not under(nm, plan['paths']) or (a is not None and a == b):
+                if mine: out.append(('git-unchanged-file-rendered', {'argv': argv, 'k': k, 'file': nm, 'header': mine[0][0]}))
+                continue
+            if a is None or b is None:
+                if 'sources' in shown and not mine:
+                    out.append(('git-added-or-deleted-notebook-not-rendered', {'argv': argv, 'k': k, 'file': nm, 'out': rec.get('out', '')[-300:]}))
+                continue
+            want = []
+            for loc in inplace_changes(a, b):
+                cats = [c for c in (path_categories(loc[:n]) for n in range(len(loc) + 1)) if c is not None]
+                if cats and all(c <= shown for c in cats): want.append(loc)          # clear-cut: shown at every level
+            if want and not mine:
+                out.append(('git-changed-notebook-not-rendered', {'argv': argv, 'k': k, 'file': nm, 'locations': [loc_str(l) for l in want[:4]], 'out': rec.get('out', '')[-300:]}))
+                continue
+            body = '\n'.join(l for s in mine for l in s[1][HEADER_LEN - 1:])
+            for loc in want:
+                needle = loc_str(loc[:2] if loc[0] == 'cells' else loc[:1])
+                if needle not in body:
+                    out.append(('git-shown-change-not-mentioned', {'argv': argv, 'k': k, 'file': nm, 'location': loc_str(loc)})); break
     return out
 
 # ------------------------------------------------------------------ Coq terms for the generated cases file
@@ -350,6 +495,7 @@ def run(tier, seed):
     tasks = gen_tasks(chk, tier)
     t1cases = t1_render_cases(chk, tier)
     cli = gen_cli_tasks(chk, tier)
+    cli += gen_git_tasks(chk, tier)          # drawn last: the cases above are the same as before this family existed
     results = core.run_impl(tasks + t1cases + cli, shards=14, script='c16_runner.py')
     res_main = results[:len(tasks)]; res_t1 = results[len(tasks):len(tasks) + len(t1cases)]; res_cli = results[len(tasks) + len(t1cases):]
 
@@ -375,12 +521,20 @@ def run(tier, seed):
                 case = {k: t[k] for k in ('op', 'nb', 'a', 'b', 'base', 'local', 'remote', 'strategy') if k in t}
                 case['configs'] = [t['configs'][ci]]
                 chk.violation(sig, case, detail)
-    ncli = 0
+    ncli = 0; ngit = 0
     for t, res in zip(cli, res_cli):
         if 'task_err' in res:
             chk.broken_obligation('runner-cli:' + res['task_err'], res.get('msg', '')[-600:]); continue
         ncli += len(res.get('recs', []))
+        if t['app'] == 'nbdiff-git':
+            ngit += len(res.get('recs', [])); hist['cli:cli-git'] = hist.get('cli:cli-git', 0) + 1
+            nontrivial.update(hashlib.sha1((json.dumps(a) + rec['out']).encode()).hexdigest() for a, rec in zip(t['argvs'], res.get('recs', [])) if rec.get('out'))
         for sig, detail in judge_cli(t, res):
+            if t['app'] == 'nbdiff-git':
+                k = detail['k']
+                chk.violation(sig, {'op': 'cli', 'app': t['app'], 'nbs': [], 'commits': t['commits'], 'worktree': t['worktree'], 'plans': [t['plans'][k]],
+                                    'argvs': [t['argvs'][k]], 'tools': [t['tools'][k]]}, detail)
+                continue
             chk.violation(sig, {'op': 'cli', 'app': t['app'], 'nbs': t['nbs'], 'argvs': [detail['argv']], 'tools': [[True, True]]}, detail)
 
     # ---------------- T1: model against implementation, evaluated by coqc
@@ -475,11 +629,11 @@ def run(tier, seed):
     # ---------------- evidence
     chk.cov.update({
         'evaluations': nrender + ncli, 'distinct_nontrivial': len(nontrivial),
-        'rule': 'one evaluation = one rendering (notebook / notebook diff from nbdime.diff_notebooks / decision list from decide_notebook_merge, or one nbdiff/nbshow/git-nbdiffdriver invocation) under one configuration; '
+        'rule': 'one evaluation = one rendering (notebook / notebook diff from nbdime.diff_notebooks / decision list from decide_notebook_merge, or one nbdiff/nbshow/git-nbdiffdriver invocation, nbdiff also between two revisions of a scratch git history with several changed notebooks) under one configuration; '
                 'configurations: all 64 ignore subsets x colour x colour-words x {git, diff, difflib} in full on a few cases and with the 12 colour/renderer combinations in rotation on the others, all 16 (use_git,use_diff,has_git,has_diff) settings on one case; '
                 'non-trivial = rendering of a non-empty diff / notebook / decision list that produced output, distinct by sha1 of (configuration, output text)',
         'input_distribution': hist, 'traces_validated_against_impl': t1, 'model_impl_mismatches': t1_mismatch,
-        'filter_paths_compared': len(paths), 'render_skeleton_cases_compared': len(rcases), 'cli_invocations': ncli,
+        'filter_paths_compared': len(paths), 'render_skeleton_cases_compared': len(rcases), 'cli_invocations': ncli, 'cli_git_revision_invocations': ngit,
         'exhaustive': False,
         'explanation': 'proved: filter vs categories, colour tables / command lines clean without colour, renderer selection, dispatch skeleton total on well-formed diffs (premises: string patch total, tool contract), silent on empty, speaks on visible leaves; explored only: value formatters, pprint, pygments, output of git/diff',
     })
